@@ -28,7 +28,7 @@ KINDS = ['melt-recast', 'recast-direct', 'melt', 'transpose', 'flatten', 'unflat
 REQUIRED = (['views-read-twice', 'regex-flags', 'unpackdict:keys-from-a-sample-shorter-than-the-table'] + ['kind:' + k for k in KINDS] + ['none-key', 'compound-key', 'key-not-leading', 'one-column', 'period=1', 'period=width',
             'pivot-missing-pair', 'field-by-index', 'include-original', 'explicit-variables-permuted', 'fromdicts-sample<nrows', 'fromdicts-generator:lagging-iterator', 'melt:key-inferred-from-variables', 'recast:sample-shorter-than-the-molten-table'])
 VALS = [None, 0, 1, 2.5, 'a', 'b', '', b'x', (1, 2), gen.D(2020, 1, 1), True]
-KEYS = [None, 1, 2, 3, 'a', 'b', b'a', (1, 2), 2.5, gen.D(2020, 1, 1)]
+KEYS = [None, 1, 2, 3, 'a', 'b', b'a', (1, 2), 2.5, gen.D(2020, 1, 1), 0, '', ()]
 NAMES = ['alpha', 'beta', 'gamma', 'delta', 'eps', 'al', 'eta']      # 'al' / 'eta' are substrings of other names on purpose
 
 
